@@ -541,16 +541,30 @@ theorem inFuncRest_invA (S : Sem V) (st : St V) (f t n : Tok) (opfRest : List To
       unfold nestStepA at hn
       rw [h.1, hinner] at hn
       simp only [h.2.2.2, if_true]
+      simp only [Option.some.injEq, Prod.mk.injEq] at hn
+      obtain ⟨h1, h2⟩ := hn
+      subst h1; subst h2
       cases x with
-      | P => simp at hn
+      | P =>
+        -- directly inside a parenthesis: the separator is skipped (it belongs to an array constant, or to nothing)
+        have hap : argInParen f opft1 = true :=
+          argInParen_paren f hf st.opf (strip fs) opft1 (by simpa [hinner, strip] using ha1)
+        have hres : (if (curArr ({ st with opfd := opfd1, opft := opft1 } : St V)).isSome = true then
+              Outcome.ok ({ st with opfd := opfd1, opft := opft1 } : St V)
+            else Outcome.ok ({ st with opfd := opfd1, opft := opft1 } : St V)) =
+            Outcome.ok ({ st with opfd := opfd1, opft := opft1 } : St V) := by split <;> rfl
+        simp only [hap, if_true, hres]
+        refine ⟨by simp, ?_⟩
+        intro st' he
+        simp only [Outcome.ok.injEq] at he
+        subst he
+        exact ⟨hI.args, hinner ▸ ha1, hI.fty, hinner ▸ hI.last, hI.out, hI.outF, hinner ▸ harr1⟩
       | F =>
-        simp only [Option.some.injEq, Prod.mk.injEq] at hn
-        obtain ⟨h1, h2⟩ := hn
-        subst h1; subst h2
         rw [hinner] at hlen1 harr1 ha1
         have hcur := curArr_F _ (fs ++ outer) harr1 hlen1
         simp only [hcur, Option.isSome_none, Bool.false_eq_true, if_false]
         rw [hopf] at ha1
+        simp only [argInParen_sep f hf opfRest (strip fs) opft1 (by simpa [strip] using ha1), Bool.false_eq_true, if_false]
         have hfl := flushToSep_aligned S true f hf opfRest (strip fs) opft1 opfd1 st.args
           (by simpa [strip] using ha1) (hI.args_ne hopf)
         cases hflr : flushToSep S true f opft1 opfd1 st.args with
@@ -581,9 +595,6 @@ theorem inFuncRest_invA (S : Sem V) (st : St V) (f t n : Tok) (opfRest : List To
             subst he
             exact ⟨by simpa [hl', hlen] using hI.args, hal2, hI.fty, hinner ▸ hI.last, hI.out, hI.outF, harr1⟩
       | A r =>
-        simp only [Option.some.injEq, Prod.mk.injEq] at hn
-        obtain ⟨h1, h2⟩ := hn
-        subst h1; subst h2
         rw [hinner] at hlen1 harr1
         obtain ⟨a, as, harrs, hcur, hrow, hdep, hok⟩ := curArr_A _ r (fs ++ outer) harr1 hlen1
         simp only [hcur, Option.isSome_some, if_true]
@@ -686,18 +697,51 @@ theorem nest_rangeA {t : Tok} (hr : t.sub = .range) {inner outer i' o' : List Fr
   · have := h.2.1; simp [isFuncStart, hr] at this
   · have := h.2.2; simp [isFuncStop, hr] at this
   · rw [h.1] at hn
-    cases inner with
-    | nil => simp only [Option.some.injEq, Prod.mk.injEq] at hn; obtain ⟨h1, h2⟩ := hn; subst h1; subst h2; exact ⟨rfl, rfl⟩
-    | cons x fs =>
-      cases x with
-      | P => simp at hn
-      | F => simp only [Option.some.injEq, Prod.mk.injEq] at hn; obtain ⟨h1, h2⟩ := hn; subst h1; subst h2; exact ⟨rfl, rfl⟩
-      | A r => simp only [Option.some.injEq, Prod.mk.injEq] at hn; obtain ⟨h1, h2⟩ := hn; subst h1; subst h2; exact ⟨rfl, rfl⟩
+    simp only [Option.some.injEq, Prod.mk.injEq] at hn; obtain ⟨h1, h2⟩ := hn; subst h1; subst h2; exact ⟨rfl, rfl⟩
   · rw [hnp.1] at h; cases h.2.2.2.2
   · rw [hnp.2] at h; cases h.2.2.2.2.2
   · rw [h.1] at hn; simp only [Option.some.injEq, Prod.mk.injEq] at hn; obtain ⟨h1, h2⟩ := hn; subst h1; subst h2; exact ⟨rfl, rfl⟩
 
 theorem countP_pos_of_head {o : List FrA} : 1 ≤ countP (FrA.P :: o) := by simp [countP]
+
+/-- `array()` is decided by the frames: the innermost array frame not separated from the top by a function frame -/
+theorem curArr_scan (st : St V) : ∀ (fs : List FrA), arrOK fs st.arrs → st.opf.length = nF fs →
+    (scanA fs = none → curArr st = none) ∧
+    (∀ r, scanA fs = some r → ∃ a as, st.arrs = a :: as ∧ curArr st = some a ∧ a.inRow = r) := by
+  intro fs
+  induction fs with
+  | nil =>
+    intro h _
+    exact ⟨fun _ => curArr_nil st (by simpa [arrOK] using h), fun r hr => by simp [scanA] at hr⟩
+  | cons x xs ih =>
+    intro h hl
+    cases x with
+    | F => exact ⟨fun _ => curArr_F st xs h hl, fun r hr => by simp [scanA] at hr⟩
+    | P =>
+      have := ih h (by simpa [nF] using hl)
+      exact ⟨fun hn => this.1 (by simpa [scanA] using hn), fun r hr => this.2 r (by simpa [scanA] using hr)⟩
+    | A r0 =>
+      obtain ⟨a, as, harrs, hcur, hrow, _, _⟩ := curArr_A st r0 xs h hl
+      refine ⟨fun hn => by simp [scanA] at hn, ?_⟩
+      intro r hr
+      simp only [scanA, Option.some.injEq] at hr
+      subst hr
+      exact ⟨a, as, harrs, hcur, hrow⟩
+
+/-- pushing an ordinary function call keeps the invariant -/
+theorem push_fn_invA (st : St V) (t : Tok) (inner outer : List FrA) (hI : InvA st inner outer)
+    (hty : (t.ty == TType.function) = true) :
+    InvA ({ st with opf := t :: st.opf, args := [] :: st.args, opft := t :: st.opft } : St V) (FrA.F :: inner) outer := by
+  refine ⟨by simp [hI.args], by simp [strip, aligned, hty, hI.al], ?_, ?_, hI.out, hI.outF, by simpa [arrOK] using hI.arr⟩
+  · intro y hy
+    simp only [List.mem_cons] at hy
+    rcases hy with hy | hy
+    · rw [hy]; exact hty
+    · exact hI.fty y hy
+  · intro _
+    by_cases hne : inner = []
+    · subst hne; rfl
+    · rw [List.getLast_cons hne]; exact hI.last hne
 
 /-- one iteration of the token loop keeps the invariant along the array-aware nesting -/
 theorem step_invA (S : Sem V) (st : St V) (t n : Tok) (inner outer inner' outer' : List FrA)
@@ -757,7 +801,7 @@ theorem step_invA (S : Sem V) (st : St V) (t n : Tok) (inner outer inner' outer'
         simp only [Option.some.injEq, Prod.mk.injEq] at hn
         obtain ⟨h1, h2⟩ := hn
         subst h1; subst h2
-        simp only [h.2.1, if_true, h.2.2.1, h.2.2.2, Bool.false_eq_true, if_false]
+        simp only [h.2.1, if_true, h.2.2.1, h.2.2.2, Bool.false_eq_true, if_false, Bool.false_and]
         refine ⟨by simp, ?_⟩
         intro st' he
         simp only [Outcome.ok.injEq] at he
@@ -787,40 +831,74 @@ theorem step_invA (S : Sem V) (st : St V) (t n : Tok) (inner outer inner' outer'
           by simpa [depthAfter, hnb.1, hnb.2, countP] using hd, by simpa [nF] using hI.outF, ?_⟩
         simp only [List.nil_append]
         exact ⟨by simp [hopf, hI.outF], rfl, harr0⟩
-      · -- array row start out of the function stack
+      · -- ARRAYROW start out of the function stack: a row of the open constant, or a function start
         have hty : (t.ty == TType.function) = true := by
           have := h.2.1; simp only [isFuncStart, Bool.and_eq_true] at this; exact this.1
         have hnb : isBeginParen t = false ∧ isEndParen t = false := by
           have := beq_iff_eq.mp hty; simp [isBeginParen, isEndParen, this]
+        have hout : parens opt1 = countP outer := by simpa [depthAfter, hnb.1, hnb.2] using hd
+        have hI1 : InvA ({ st with opd := opd1, opt := opt1, opf := [] } : St V) [] outer :=
+          ⟨by simpa using hargs0, by simpa [strip] using hal0, (fun x hx => by cases hx), hlast0, hout, hI.outF,
+           by simpa using harr0⟩
+        have hsc := curArr_scan ({ st with opd := opd1, opt := opt1, opf := [] } : St V) outer harr0
+          (by simpa using hI.outF.symm)
         unfold nestStepA at hn
         rw [h.1] at hn
-        simp only [h.2.1, if_true, h.2.2.1, h.2.2.2, Bool.false_eq_true, if_false]
-        cases outer with
-        | nil => simp at hn
-        | cons y o =>
-          cases y with
-          | F => simp at hn
-          | P => simp at hn
-          | A r =>
-            cases r with
-            | true => simp at hn
-            | false =>
-              simp only [Option.some.injEq, Prod.mk.injEq] at hn
-              obtain ⟨h1, h2⟩ := hn
-              subst h1; subst h2
-              obtain ⟨a, as, harrs, hcur, hrow, hdep, hok⟩ :=
-                curArr_A ({ st with opd := opd1, opt := opt1, opf := [] } : St V) false o harr0 (by simpa [nF] using hI.outF.symm)
-              rw [hcur]
-              simp only
-              have harrs' : st.arrs = a :: as := harrs
-              refine ⟨by simp, ?_⟩
-              intro st' he
-              simp only [Outcome.ok.injEq] at he
-              subst he
-              refine ⟨by simpa [hopf] using hargs0, by simpa [hopf, strip] using hal0, by simpa [hopf] using hfty0, hlast0,
-                by simpa [depthAfter, hnb.1, hnb.2, countP] using hd, by simpa [nF] using hI.outF, ?_⟩
-              simp only [List.nil_append, harrs', List.tail_cons]
-              exact ⟨hdep, rfl, hok⟩
+        simp only [List.nil_append] at hn
+        simp only [h.2.1, if_true, h.2.2.1, h.2.2.2, Bool.false_eq_true, if_false, Bool.true_and]
+        cases hs : scanA outer with
+        | none =>
+          rw [hs] at hn
+          simp only [Option.some.injEq, Prod.mk.injEq] at hn
+          obtain ⟨h1, h2⟩ := hn
+          subst h1; subst h2
+          have hrs : rowStarts ({ st with opd := opd1, opt := opt1, opf := [] } : St V) = false := by
+            unfold rowStarts; rw [hsc.1 hs]
+          simp only [hrs, Bool.false_eq_true, if_false]
+          exact ⟨by simp, by intro st' he; simp only [Outcome.ok.injEq] at he; subst he; exact push_fn_invA _ t _ _ hI1 hty⟩
+        | some r =>
+          obtain ⟨a, as, harrs, hcur, hrow⟩ := hsc.2 r hs
+          cases r with
+          | true =>
+            rw [hs] at hn
+            simp only [Option.some.injEq, Prod.mk.injEq] at hn
+            obtain ⟨h1, h2⟩ := hn
+            subst h1; subst h2
+            have hrs : rowStarts ({ st with opd := opd1, opt := opt1, opf := [] } : St V) = false := by
+              unfold rowStarts; rw [hcur]; simp [hrow]
+            simp only [hrs, Bool.false_eq_true, if_false]
+            exact ⟨by simp, by intro st' he; simp only [Outcome.ok.injEq] at he; subst he; exact push_fn_invA _ t _ _ hI1 hty⟩
+          | false =>
+            rw [hs] at hn
+            have hrs : rowStarts ({ st with opd := opd1, opt := opt1, opf := [] } : St V) = true := by
+              unfold rowStarts; rw [hcur]; simp [hrow]
+            simp only [hrs, if_true, hcur]
+            cases outer with
+            | nil => simp at hn
+            | cons y o =>
+              cases y with
+              | F => simp at hn
+              | P => simp at hn
+              | A r2 =>
+                cases r2 with
+                | true => simp at hn
+                | false =>
+                  simp only [Option.some.injEq, Prod.mk.injEq] at hn
+                  obtain ⟨h1, h2⟩ := hn
+                  subst h1; subst h2
+                  have harrs' : st.arrs = a :: as := harrs
+                  have hok : arrOK o as := by
+                    have := harr0; rw [harrs'] at this; exact this.2.2
+                  have hdep : a.depth = nF o := by
+                    have := harr0; rw [harrs'] at this; exact this.1
+                  refine ⟨by simp, ?_⟩
+                  intro st' he
+                  simp only [Outcome.ok.injEq] at he
+                  subst he
+                  refine ⟨by simpa [hopf] using hargs0, by simpa [hopf, strip] using hal0, by simpa [hopf] using hfty0, hlast0,
+                    by simpa [countP] using hout, by simpa [nF] using hI.outF, ?_⟩
+                  simp only [List.nil_append, harrs', List.tail_cons]
+                  exact ⟨hdep, rfl, hok⟩
       all_goals
         have hns : isFuncStart t = false := h.2.1
         simp only [hns, Bool.false_eq_true, if_false, hopf]
@@ -960,7 +1038,7 @@ theorem step_invA (S : Sem V) (st : St V) (t n : Tok) (inner outer inner' outer'
       simp only [Option.some.injEq, Prod.mk.injEq] at hn
       obtain ⟨h1, h2⟩ := hn
       subst h1; subst h2
-      simp only [h.2.1, if_true, h.2.2.1, h.2.2.2, Bool.false_eq_true, if_false]
+      simp only [h.2.1, if_true, h.2.2.1, h.2.2.2, Bool.false_eq_true, if_false, Bool.false_and]
       refine ⟨by simp, ?_⟩
       intro st' he
       simp only [Outcome.ok.injEq] at he
@@ -989,34 +1067,62 @@ theorem step_invA (S : Sem V) (st : St V) (t n : Tok) (inner outer inner' outer'
       have hl := hI.len
       rw [hinner] at hl
       exact ⟨by simpa [hopf] using hl, rfl, hinner ▸ hI.arr⟩
-    · -- array row start inside a function
+    · -- ARRAYROW start inside a function: a row of the open constant, or a function start
+      have hty : (t.ty == TType.function) = true := by
+        have := h.2.1; simp only [isFuncStart, Bool.and_eq_true] at this; exact this.1
+      have hsc := curArr_scan st (inner ++ outer) hI.arr hI.len
       unfold nestStepA at hn
-      rw [h.1, hinner] at hn
-      simp only [h.2.1, if_true, h.2.2.1, h.2.2.2, Bool.false_eq_true, if_false]
-      cases x with
-      | F => simp at hn
-      | P => simp at hn
-      | A r =>
+      rw [h.1] at hn
+      simp only [h.2.1, if_true, h.2.2.1, h.2.2.2, Bool.false_eq_true, if_false, Bool.true_and]
+      have hpush : InvA ({ st with opf := t :: f :: opfRest, args := [] :: st.args, opft := t :: st.opft } : St V)
+          (FrA.F :: inner) outer := by
+        have := push_fn_invA st t inner outer hI hty
+        rw [hopf] at this
+        exact this
+      cases hs : scanA (inner ++ outer) with
+      | none =>
+        rw [hs] at hn
+        simp only [Option.some.injEq, Prod.mk.injEq] at hn
+        obtain ⟨h1, h2⟩ := hn
+        subst h1; subst h2
+        have hrs : rowStarts st = false := by unfold rowStarts; rw [hsc.1 hs]
+        simp only [hrs, Bool.false_eq_true, if_false]
+        exact ⟨by simp, by intro st' he; simp only [Outcome.ok.injEq] at he; subst he; exact hpush⟩
+      | some r =>
+        obtain ⟨a, as, harrs, hcur, hrow⟩ := hsc.2 r hs
         cases r with
-        | true => simp at hn
-        | false =>
+        | true =>
+          rw [hs] at hn
           simp only [Option.some.injEq, Prod.mk.injEq] at hn
           obtain ⟨h1, h2⟩ := hn
           subst h1; subst h2
-          have hl := hI.len
-          have harr := hI.arr
-          rw [hinner] at hl harr
-          obtain ⟨a, as, harrs, hcur, hrow, hdep, hok⟩ := curArr_A st false (fs ++ outer) harr hl
-          rw [hcur]
-          simp only
-          refine ⟨by simp, ?_⟩
-          intro st' he
-          simp only [Outcome.ok.injEq] at he
-          subst he
-          refine ⟨by simpa [hopf] using hI.args, by simpa [hopf, strip, hinner] using hI.al, by simpa [hopf] using hI.fty,
-            last_swap_head (by simp) (hinner ▸ hI.last), hI.out, hI.outF, ?_⟩
-          simp only [harrs, List.tail_cons, List.cons_append]
-          exact ⟨hdep, rfl, hok⟩
+          have hrs : rowStarts st = false := by unfold rowStarts; rw [hcur]; simp [hrow]
+          simp only [hrs, Bool.false_eq_true, if_false]
+          exact ⟨by simp, by intro st' he; simp only [Outcome.ok.injEq] at he; subst he; exact hpush⟩
+        | false =>
+          rw [hs, hinner] at hn
+          have hrs : rowStarts st = true := by unfold rowStarts; rw [hcur]; simp [hrow]
+          simp only [hrs, if_true, hcur]
+          cases x with
+          | F => simp at hn
+          | P => simp at hn
+          | A r2 =>
+            cases r2 with
+            | true => simp at hn
+            | false =>
+              simp only [Option.some.injEq, Prod.mk.injEq] at hn
+              obtain ⟨h1, h2⟩ := hn
+              subst h1; subst h2
+              have harr := hI.arr
+              rw [hinner, harrs] at harr
+              refine ⟨by simp, ?_⟩
+              intro st' he
+              simp only [Outcome.ok.injEq] at he
+              subst he
+              refine ⟨hI.args, by simpa [strip, hinner] using hI.al, hI.fty,
+                last_swap_head (by simp) (hinner ▸ hI.last), hI.out, hI.outF, ?_⟩
+              simp only [harrs, List.tail_cons, List.cons_append]
+              exact ⟨harr.1, rfl, harr.2.2⟩
     all_goals
       have hns : isFuncStart t = false := h.2.1
       simp only [hns, Bool.false_eq_true, if_false]
